@@ -81,6 +81,16 @@ fn try_null_datalink(packet: &[u8]) -> Option<(IpAddr, IpAddr, u16, u16)> {
         return None;
     }
 
+    // The packet decoder accepts a 4-byte NULL header that starts with 0x1e 0x00 and then goes by
+    // the IP version nibble (so it also decodes IPv4 behind such a header): do the same here.
+    if packet.len() >= 5 && packet[0] == 0x1e && packet[1] == 0x00 {
+        return match packet[4] >> 4 {
+            4 => extract_ipv4_info(&packet[4..]),
+            6 => extract_ipv6_info(&packet[4..]),
+            _ => None,
+        };
+    }
+
     // NULL datalink has 4-byte header with address family
     // AF_INET = 2, AF_INET6 = 30 (on most systems)
     let family = u32::from_ne_bytes([packet[0], packet[1], packet[2], packet[3]]);
